@@ -340,6 +340,15 @@ func runC05(R *vlib.Out) {
 			Cfg string `json:"cfg"`
 		}
 		vlib.LoadReplay(&probe)
+		if probe.Cfg == "c05ids" {
+			var c c05iCase
+			vlib.LoadReplay(&c)
+			R.Eval()
+			if sig, d, _ := execBody(func() (string, string) { return c05iRun(c) }); sig != "" {
+				R.Violate(sig, d, c)
+			}
+			return
+		}
 		if probe.Cfg == "c05time" {
 			var c c05tCase
 			vlib.LoadReplay(&c)
@@ -357,7 +366,7 @@ func runC05(R *vlib.Out) {
 		finishSched(R)
 		return
 	}
-	if !runC05time(R) {
+	if !runC05time(R) || !runC05ids(R) {
 		return
 	}
 	for _, c := range c05HistCfgs(*vlib.Tier) {
